@@ -25,9 +25,16 @@ func (s *vSubReconciler) Reconcile(context.Context, adapters.ObjectSetAccessor, 
 	return ctrl.Result{}, nil
 }
 
+// vTemplateSpec fills every field of the template spec, so that "the created ObjectSet's spec equals the template"
+// is about the whole spec.
 func vTemplateSpec(objName string) corev1alpha1.ObjectSetTemplateSpec {
 	return corev1alpha1.ObjectSetTemplateSpec{
 		Phases: []corev1alpha1.ObjectSetTemplatePhase{{Name: "p", Objects: []corev1alpha1.ObjectSetObject{vCM(objName)}}},
+		AvailabilityProbes: []corev1alpha1.ObjectSetProbe{{
+			Probes:   []corev1alpha1.Probe{{Condition: &corev1alpha1.ProbeConditionSpec{Type: "Available", Status: "True"}}},
+			Selector: corev1alpha1.ProbeSelector{Kind: &corev1alpha1.PackageProbeKindSpec{Group: "apps", Kind: "Deployment"}},
+		}},
+		SuccessDelaySeconds: 30,
 	}
 }
 
